@@ -11,7 +11,7 @@ STEP_LIMIT = 1_500_000
 BOUNDS = {
     'quick': 'rule t($X) :- BODY followed by the fact t(z) (a later clause that a cut must exclude); BODY = every conjunction / disjunction / mixed shape of up to 3 goals over '
              '{p($X), q($X), r($X, $Y), $X = b, `!`, fail, q($Y)} containing at least one `!`; queried directly (t($X), t(b)) and through callers w($X, $Y) :- p($Y), t($X) '
-             '(a sibling goal before the call must keep backtracking) and v($X) :- t($X) ; $X = zz (the caller\'s alternative must survive); up to 8 answers compared',
+             '(a sibling goal before the call must keep backtracking) and v($X) :- t($X) ; $X = zz (the caller\'s alternative must survive); plus 400 four-goal bodies in which a disjunction stands next to a cut and a goal after the cut can fail; up to 8 answers compared',
     'thorough': 'adds n($X), $X < 3, member, a second cut-bearing clause and bodies of 4 goals in the flat conjunction shape',
 }
 OUTSIDE = 'cut inside not(...) and time(...); a cut inside a disjunction: three readings are accepted (DESIGN C02) and the evidence counts which one the engine follows'
@@ -41,8 +41,15 @@ def cases(tier, seed):
         for nm, (extra, q) in callers.items():
             cl = [(C('t', X), b), (C('t', A('z')), None)] + extra
             out.append({'id': '%s [%s]|%d' % (P.ctext(cl[0]), nm, len(out)), 'fam': nm, 'clauses': PC.jsonable(tuple(cl)), 'query': PC.jsonable(q)})
+    # a disjunction next to a cut, with a goal after the cut that can fail: 4 goals
+    import itertools
+    core = [gc('p', X), gc('n', X), U(X, A('b')), U(X, I(5)), gb('equal', X, A('b')), gb('equal', X, I(5)), gb('fail')]
+    for g, h in itertools.product(core[:4], repeat=2):
+        for k in core[2:]:
+            for b in (AND(OR(g, h), CUT, k), AND(OR(AND(g, CUT), h), k), AND(g, OR(h, CUT), k), AND(OR(g, AND(h, CUT)), k), AND(CUT, OR(g, h), k)):
+                cl = [(C('t', X), b), (C('t', A('z')), None)]
+                out.append({'id': '%s [direct]|%d' % (P.ctext(cl[0]), len(out)), 'fam': 'direct', 'clauses': PC.jsonable(tuple(cl)), 'query': PC.jsonable(C('t', X))})
     if tier != 'quick':
-        import itertools
         for gs in itertools.product(MENU, repeat=4):
             b = AND(*gs)
             if not has_cut(b): continue
